@@ -104,6 +104,8 @@ var c08SafeRanges = map[string]string{
 func checkC08(p *core.Program, r *core.Report) {
 	r.Rule("R1", "no non-test library function calls a nondeterminism source (wall clock, global RNG, env, map-order reflection, maps.Keys without sort, go/select statements) directly")
 	r.Rule("R2", "every range over a map in engine/inspection/migration packages is order-insensitive by construction (keyed stores, append-then-total-sort, commutative accumulation, constant existential return) or is listed with a confirmed reason")
+	r.Rule("R4", "a call leaves no trace for the next one in its inputs: an exported function of the migration, inspection or query packages does not write into a map it is handed as a parameter (directly, through a closure, or in a function it passes the map to) — Clone's memo of old-to-new UUIDs written into the caller's mapping makes the next Clone with that mapping depend on the calls before it")
+	c08R4(p, r)
 	r.Rule("R3", "the four named sorted renderers (XObject.Properties, Results.format, FieldValues.Context, migrations.objectProperties) are instances of append-then-sort")
 	r.Assumption("dependencies (gocommon, decimal, validator, antlr runtime) are deterministic for equal inputs")
 
@@ -1307,4 +1309,46 @@ func (m *mapClassifier) isKeyedStoreHelper(call *ast.CallExpr) bool {
 		return false
 	}
 	return okBlock(fd.Body.List) && stores > 0
+}
+
+// ---------------------------------------------------------------------------------------------- R4
+
+var c08MapParamWritersAllowed = map[string]string{}
+
+func c08R4(p *core.Program, r *core.Report) {
+	n := 0
+	for _, fn := range p.ModuleFunctions() {
+		rel := core.RelPkg(core.FuncPkgPath(fn))
+		if rel != "flows/definition/migrations" && rel != "flows/inspect" && rel != "contactql" && rel != "flows/definition" && rel != "flows/definition/legacy" {
+			continue
+		}
+		if fn.Object() == nil || !fn.Object().Exported() || fn.Parent() != nil {
+			continue
+		}
+		for _, par := range fn.Params {
+			if _, isMap := par.Type().Underlying().(*types.Map); !isMap {
+				continue
+			}
+			if fn.Signature.Recv() != nil {
+				continue // methods work on an object; their map parameters are the accumulators of a traversal (node.Validate's seenUUIDs)
+			}
+			if _, named := par.Type().(*types.Named); named {
+				continue // a named map type (migrations.Flow) is the object being transformed, not a lookup table handed along
+			}
+			n++
+			key := core.FuncName(fn) + "/" + par.Name()
+			ws := core.MapWritesThrough(par, 3)
+			if len(ws) == 0 {
+				r.OK("R4", key, p.Pos(fn.Pos()), "no write into the map through any alias, closure or callee (depth 3)")
+				continue
+			}
+			if reason, ok := c08MapParamWritersAllowed[key]; ok {
+				r.OK("R4", key, p.Pos(fn.Pos()), "listed: "+reason)
+				continue
+			}
+			r.Bad("R4", key, p.Pos(ws[0].Pos()), fmt.Sprintf("%s writes into the map it was handed as %s (%d write site(s), first at %s): what the next call with the same map returns depends on this one", fn.Name(), par.Name(), len(ws), p.Pos(ws[0].Pos())))
+		}
+	}
+	r.Count("exported_map_parameters", n)
+	r.Require("exported_map_parameters", n, 1)
 }
